@@ -1,5 +1,6 @@
 import PauLieVerif.Model.Proto
 import PauLieVerif.Model.Classify
+import PauLieVerif.Model.MorphG
 
 namespace PauLie
 namespace CmdClassify
@@ -96,6 +97,23 @@ def handle (line : String) : Option String :=
       let complete := ms.all (fun m => m.complete)
       return s!"alg={alg} dim={dim} deps={showSortedPS (dependentsOf ms)} verts={showSortedPS (verticesOf ms)} morphs={showMorphs ms}" ++
         (if complete then "" else " INCOMPLETE") ++ s!" #lost={lost} #tags={String.intercalate "" (ms.map (fun m => String.intercalate "" m.tags))}")
+  | ["guards", gs] => do
+    -- the guarded model (`Model/MorphG.lean`): the reduction of every component with a certificate
+    -- check at every move; `guards=ok` implies closure preservation (`C02.C02_closure_guarded`)
+    let gs ← psList? gs
+    return showExcept id (do
+      let c ← Graph.collInit gs
+      let subs ← Graph.getSubgraphs c
+      let rs ← subs.mapM MorphG.buildG
+      let ok := rs.all (fun r => r.guardsOk)
+      let complete := rs.all (fun r => r.res.complete)
+      let lost := (rs.map (fun r => r.res.unappended.length)).foldl (· + ·) 0
+      let legs := (rs.map (fun r => showLegs r.res.legs)).mergeSort strLeS
+      let why := String.intercalate "," ((rs.filter (fun r => !r.guardsOk)).map (fun r => r.why))
+      return s!"guards={if ok then "ok" else "FAIL:" ++ why} complete={showBool complete} lost={lost} " ++
+        s!"deps={showSortedPS ((rs.map (fun r => r.res.dependents)).flatten)} " ++
+        s!"morphs={if legs.isEmpty then "-" else String.intercalate ";" legs} " ++
+        s!"tags={String.intercalate "" (rs.map (fun r => String.intercalate "" r.res.tags))}")
   | ["classifyrec", gs] => do
     let gs ← psList? gs
     return showExcept id (do
